@@ -294,7 +294,7 @@ func repoKeysScanner(ctx context.Context, contextStore context2.Stores, repo mod
 				Logger(zap.NewNop()), // mute verbosity on retrieving bundle details
 			)
 
-			keys, erk := bundleKeys(ctx, b, bundle.LeafSize, db, lg)
+			keys, erk := bundleKeys(ctx, b, bundle.LeafSize, db, lg, options.resume)
 			if erk != nil {
 				return erk
 			}
@@ -512,7 +512,7 @@ func insistantBackoff() backoff.BackOff {
 	return withRetry
 }
 
-func bundleKeys(ctx context.Context, b *Bundle, size uint32, db kvStore, logger *zap.Logger) ([]string, error) {
+func bundleKeys(ctx context.Context, b *Bundle, size uint32, db kvStore, logger *zap.Logger, resumed bool) ([]string, error) {
 	if err := backoff.Retry(func() error {
 		return unpackBundleFileList(ctx, b, false, defaultBundleEntriesPerFile)
 	},
@@ -541,12 +541,16 @@ func bundleKeys(ctx context.Context, b *Bundle, size uint32, db kvStore, logger 
 			return nil, err
 		}
 
-		if found {
+		if found && !resumed {
 			// the root key is found in store, no need to unpack it: we necessarily have all its leaves in store
 			continue
 		}
 
-		keys = append(keys, key)
+		if !found {
+			keys = append(keys, key)
+		}
+		// NOTE: when resuming, the local store has been reloaded from the index chunks uploaded so far: a root key
+		// found there may have been uploaded without (all) its leaves, so these must be indexed again.
 
 		// NOTE: this section issues a GET on remote store for this key and has been seen as the
 		// limiting factor on the throughput of the index building job.
